@@ -28,14 +28,12 @@ pub fn run(rng: &mut Rng, n: usize, out: &mut Out) {
                 match before { Some(d) if d > depth => kept += 1, Some(d) if d == depth => equal += 1, Some(_) => replaced += 1, None => {} }
                 let op = format!("tt.store {} {} {} {} {}", k, eval, opt_mv_text(&mv), depth, bounds_name(b));
                 trace += &op; trace.push(';');
-                let a = st.apply(&op);
-                out.op(&op, &a);
+                let a = out.run(&mut st, &op);
             } else {
                 let probe = if rng.chance(1, 10) { rng.next() } else { k };
                 let op = format!("tt.get {}", probe);
                 trace += &op; trace.push(';');
-                let a = st.apply(&op);
-                out.op(&op, &a);
+                let a = out.run(&mut st, &op);
             }
         }
         out.add("stores_kept_older_deeper", kept);
